@@ -80,23 +80,34 @@ fn op_linkf(em: &mut Em, rng: &mut Rng) {
     });
 }
 
-fn op_deflink(em: &mut Em, power: f64) {
-    let op = format!("deflink power={}", hex64(power));
-    em.case(op, move |ctx| match TweedieRegressor::<f64>::params().power(power).check() {
-        Err(_) => "err InvalidTweediePower".into(),
-        Ok(p) => {
-            let l = p.link();
-            // documented: identity for the Normal distribution (power 0), log for power >= 1
-            let want = if power <= 0.0 { Link::Identity } else { Link::Log };
-            ctx.require(l == want, "default_link_is_documented_choice", &format!("glm:power={:e}", power), || format!("default link for power {:e} is {:?}, documented {:?}", power, l, want));
-            format!(
-                "ok {}",
-                match l {
-                    Link::Identity => 0,
-                    Link::Log => 1,
-                    Link::Logit => 2,
-                }
-            )
+fn op_deflink(em: &mut Em, power: f64, chosen: Option<usize>) {
+    // `chosen`: the link set with `.link(..)` before `check()`; `None`: left to the default selection
+    let op = format!("deflink power={} chosen={}", hex64(power), chosen.map_or("none".to_string(), |c| c.to_string()));
+    em.count(if chosen.is_some() { "deflink:chosen" } else { "deflink:default" });
+    em.case(op, move |ctx| {
+        let mut params = TweedieRegressor::<f64>::params().power(power);
+        if let Some(c) = chosen {
+            params = params.link(link_of(c));
+        }
+        match params.check() {
+            Err(_) => "err InvalidTweediePower".into(),
+            Ok(p) => {
+                let l = p.link();
+                // documented: a chosen link is used as it is; otherwise identity for the Normal distribution (power 0), log for power >= 1
+                let want = match chosen {
+                    Some(c) => link_of(c),
+                    None => if power <= 0.0 { Link::Identity } else { Link::Log },
+                };
+                ctx.require(l == want, "default_link_is_documented_choice", &format!("glm:power={:e}", power), || format!("link() for power {:e} with {:?} chosen is {:?}, documented {:?}", power, chosen, l, want));
+                format!(
+                    "ok {}",
+                    match l {
+                        Link::Identity => 0,
+                        Link::Log => 1,
+                        Link::Logit => 2,
+                    }
+                )
+            }
         }
     });
 }
@@ -499,7 +510,189 @@ fn op_budget(em: &mut Em, rng: &mut Rng) {
     if needs_more {
         em.count("fit2:budget:needs_more_than_100_iterations");
     }
-    run_fit2(em, Fit2Case { x, y, alpha, icpt: true, ty: 0, tol, init: None, thr: None, lay: 4, max_iter: Some(100_000), class: format!("fit2:budget:needs_more={}", needs_more as u8) });
+    run_fit2(em, Fit2Case { x, y, alpha, icpt: true, ty: 0, tol, init: None, thr: None, lay: 4, tlay: 0, max_iter: Some(100_000), class: format!("fit2:budget:needs_more={}", needs_more as u8) });
+}
+
+
+// ------------------------------------------------------------------ round 3 streams
+
+/// Multinomial fits on un-normalised features (|x| ~ 10 .. 100), the regime of the two open findings
+/// (`stationary` at scale 100, `fit_succeeds … err=linesearch_descent_direction` at scale 10 / 100).  A dedicated stream so
+/// that the SHARE of masked outcomes is measured on enough cases: the counters `fitm:unscaled:fitted` and
+/// `fitm:unscaled:fitted_and_stationary` (complements of what the masks hide) carry coverage floors, and
+/// `mask_ceiling` below bounds the masked share directly.
+fn op_fitm_unscaled(em: &mut Em, rng: &mut Rng, i: usize) {
+    let k = 2 + rng.below(5);
+    let alpha = *rng.pick(&[0.01, 0.1, 1.0, 1.0, 10.0]);
+    let scale = if i % 2 == 0 { 10.0 } else { 100.0 };
+    let (x, y) = gen_class_data(rng, k, false, scale, false);
+    let icpt = i % 3 != 2;
+    let tol = *rng.pick(&[1e-4, 1e-4, 1e-6, 1e-2]);
+    let class = format!("fitm:alpha=pos,icpt={},scale={}", icpt as u8, scale);
+    run_fitm(em, class, x, y, k, alpha, icpt, i % 2, tol, None, 4, Some(10_000));
+}
+
+/// Ceiling on what the open findings of the un-normalised regime may swallow: of the multinomial fits at scale 10 / 100 of
+/// this run at least `MIN_FITTED` per cent must return a model and at least `MIN_STATIONARY` per cent a stationary one
+/// (unchanged tree, seeds 1..5 quick and seed 1 thorough: see notes).  Reported as an oracle failure of its own clause.
+const MIN_FITTED_PCT: u64 = 85;
+const MIN_STATIONARY_PCT: u64 = 75;
+fn mask_ceiling(em: &mut Em) {
+    let g = |em: &Em, k: &str| *em.dist.get(k).unwrap_or(&0);
+    let (n, f, st) = (g(em, "fitm:unscaled"), g(em, "fitm:unscaled:fitted"), g(em, "fitm:unscaled:fitted_and_stationary"));
+    em.case(format!("#fitm_mask_ceiling unscaled={} fitted={} stationary={}", n, f, st), move |ctx| {
+        if n < 20 {
+            // `--only` replay of another case: nothing was run
+            ctx.mark_trivial();
+            return "ok".into();
+        }
+        ctx.require(100 * f >= MIN_FITTED_PCT * n, "masked_share_within_baseline", "fitm:unscaled:fit_succeeds", || format!("only {} of {} multinomial fits on un-normalised features (|x| ~ 10..100) returned a model; the open finding C12-multinomial-unscaled-features-linesearch-error covers an occasional failure (baseline: at least {} %)", f, n, MIN_FITTED_PCT));
+        ctx.require(100 * st >= MIN_STATIONARY_PCT * n, "masked_share_within_baseline", "fitm:unscaled:stationary", || format!("only {} of {} multinomial fits on un-normalised features returned a stationary point; the open finding C12-multinomial-unscaled-features-not-stationary covers part of the scale-100 fits (baseline: at least {} %)", st, n, MIN_STATIONARY_PCT));
+        "ok".into()
+    });
+}
+
+/// GLM problems that need more than the default budget of 100 iterations: Normal distribution with the identity link
+/// (a ridge problem: the deviance is defined everywhere, so the solver cannot leave its domain) on badly scaled columns.
+fn op_glm_budget(em: &mut Em, rng: &mut Rng, i: usize) {
+    // variants: 0 / 1 Normal distribution with the LOGIT link (deviance (y - expit(eta))^2: defined and bounded everywhere) on
+    // columns of scale 1, R, 1/R, sqrt(R) with R = 1000 / 200; 2 Normal with the identity link (a ridge problem) on 8..10
+    // columns of geometrically growing scale
+    let variant = i % 3;
+    let n = 24 + rng.below(12);
+    let (l, scales): (usize, Vec<f64>) = match variant {
+        0 => (2, vec![1.0, 1000.0, 1e-3, 31.6][..3 + rng.below(2)].to_vec()),
+        1 => (2, vec![1.0, 200.0, 1.0 / 200.0, 14.0][..3 + rng.below(2)].to_vec()),
+        _ => (0, (0..8 + rng.below(3)).map(|j| 3.0f64.powi(j as i32 - 4)).collect()),
+    };
+    let nf = scales.len();
+    let beta: Vec<f64> = (0..nf).map(|j| (rng.unit() * 2.0 - 1.0) / scales[j]).collect();
+    let x: M = (0..n).map(|_| (0..nf).map(|j| (rng.unit() * 2.0 - 1.0 + 0.5) * scales[j]).collect()).collect();
+    let y: Vec<f64> = x
+        .iter()
+        .map(|r| {
+            let eta = r.iter().zip(&beta).map(|(a, b)| a * b).sum::<f64>();
+            if l == 2 { (sigmoid(eta) * (0.8 + 0.4 * rng.unit())).min(0.95).max(0.05) } else { eta + (rng.unit() - 0.5) * 0.3 }
+        })
+        .collect();
+    let alpha = *rng.pick(&[1e-4, 1e-6]);
+    let icpt = (i / 3) % 3 != 2;
+    let tol = 1e-8;
+    let (needs_more, g100) = if std::env::var("C12_CHILD").is_ok() || !em.only.map_or(true, |o| o == em.idx) {
+        (false, 0.0)
+    } else {
+        let ds = Dataset::new(arr2(&x, nf), Array1::from(y.clone()));
+        match TweedieRegressor::params().power(0.0).link(link_of(l)).alpha(alpha).fit_intercept(icpt).tol(tol).max_iter(100).fit(&ds) {
+            Ok(m) => {
+                let coef = m.coef.to_vec();
+                let (mut g, gb) = doc_glm_grad(0.0, link_of(l), alpha, &x, &y, &coef, m.intercept);
+                if icpt {
+                    g.push(gb);
+                }
+                let ymax = y.iter().cloned().fold(0.0, |a: f64, b: f64| a.max(b.abs()));
+                let floor = stagnation_floor(&x, icpt, alpha, 2.0 * (1.0 + ymax) * 20.0, doc_glm_obj(0.0, link_of(l), alpha, &x, &y, &coef, m.intercept));
+                (norm2(&g) > 2.0 * (tol + floor), norm2(&g))
+            }
+            Err(_) => (false, 0.0),
+        }
+    };
+    if std::env::var("C12_TRACE").is_ok() {
+        eprintln!("glm budget probe (variant {}): |g| after 100 iterations = {:e}, needs_more = {}", variant, g100, needs_more);
+    }
+    if needs_more {
+        em.count("glmfit:budget:needs_more_than_100_iterations");
+        em.count(&format!("glmfit:budget:needs_more_than_100_iterations:variant={}", variant));
+    }
+    run_glmfit(em, GlmCase { power: 0.0, l, auto_link: l == 0 && i % 2 == 0, icpt, alpha, tol, bad: false, lay: 4, max_iter: Some(100_000), x, y });
+}
+
+/// more fits on the logit arms (the cycle of `op_glmfit` reaches each (power, logit, intercept) arm once or twice)
+fn op_glm_logit(em: &mut Em, rng: &mut Rng, i: usize) {
+    let powers = [0.0, 1.0, 1.5, 1.25, 2.0, 3.0];
+    let power = powers[i % 6];
+    let icpt = (i / 6) % 2 == 0;
+    let n = 8 + rng.below(16);
+    let nf = 1 + rng.below(3);
+    let alpha = *rng.pick(&[0.0, 0.01, 0.1, 1.0]);
+    let tol = *rng.pick(&[1e-4, 1e-6]);
+    let (x, y) = gen_glm_data(rng, power, 2, n, nf, false);
+    em.count("glmfit:logit_stream");
+    run_glmfit(em, GlmCase { power, l: 2, auto_link: false, icpt, alpha, tol, bad: false, lay: rng.below(5) + 5 * rng.below(3), max_iter: Some(10_000), x, y });
+}
+
+/// Targets inside the support of the distribution whose MEAN lies outside the domain of the link function: `fit` starts from
+/// `intercept = link(mean(y))`, which is NaN / -inf there (log link: mean(y) <= 0, Normal targets; logit link: mean(y) >= 1).
+/// Oracle only, under the watchdog: what does `fit` do?
+fn op_glm_start(em: &mut Em, rng: &mut Rng, i: usize) {
+    let kind = i % 3;
+    // 0: Normal + log link, mean(y) < 0 but some targets positive (a finite minimiser of the deviance exists)
+    // 1: Poisson + logit link, counts with mean >= 1;  2: Normal + logit link, mean(y) >= 1
+    let (power, l) = match kind {
+        0 => (0.0, 1),
+        1 => (1.0, 2),
+        _ => (0.0, 2),
+    };
+    let n = 8 + rng.below(10);
+    let nf = 1 + rng.below(2);
+    let x: M = (0..n).map(|_| (0..nf).map(|_| rng.unit() * 2.0 - 1.0).collect()).collect();
+    let y: Vec<f64> = (0..n)
+        .map(|j| match kind {
+            0 => if j % 3 == 0 { 0.5 + rng.unit() } else { -2.0 - rng.unit() },
+            1 => (rng.below(4) + if j == 0 { 2 } else { 0 }) as f64 + 1.0,
+            _ => 1.0 + rng.unit(),
+        })
+        .collect();
+    let alpha = 0.1;
+    let class = format!("glmstart:power={},link={}", power_name(power), l);
+    em.count(&class);
+    let op = format!("#glmstart power={} l={} alpha={} x={} y={}", power, l, alpha, hx2(&x), hx(&y));
+    trace(&op);
+    // kind 0: a finite minimiser exists (some targets positive) -> inside the statement's quantifier; kinds 1 / 2: every mean
+    // the logit link can produce lies below every target, the objective has no stationary point -> nothing is promised
+    let promised = kind == 0;
+    let hangs = match watchdog(em, &format!("start{}", kind), false) {
+        Some(h) => h,
+        None => {
+            em.case(format!("#glmstart_skipped {}", &op[10..]), |ctx| {
+                ctx.mark_trivial();
+                "skipped".into()
+            });
+            return;
+        }
+    };
+    em.case(op, move |ctx| {
+        if hangs {
+            if promised {
+                ctx.fail("terminates", &class, format!("fit did not return within 5 s: mean(y) = {} is outside the domain of the link, the start intercept link(mean(y)) is not finite", y.iter().sum::<f64>() / y.len() as f64));
+            }
+            return "timeout".into();
+        }
+        if !promised {
+            ctx.mark_trivial();
+        }
+        let res = TweedieRegressor::params().power(power).link(link_of(l)).alpha(alpha).tol(1e-6).max_iter(10_000).fit(&Dataset::new(arr2(&x, nf), Array1::from(y.clone())));
+        match res {
+            Err(e) => {
+                // an error is an honest answer
+                let _ = e;
+                "err".into()
+            }
+            Ok(m) => {
+                let coef = m.coef.to_vec();
+                let b = m.intercept;
+                let finite = coef.iter().all(|v| v.is_finite()) && b.is_finite();
+                ctx.require(finite || !promised, "returned_parameters_finite", &class, || format!("fit returned Ok with coef {:?} intercept {} (mean(y) = {} is outside the domain of the link: start intercept = link(mean(y)) is not finite)", coef, b, y.iter().sum::<f64>() / y.len() as f64));
+                if finite && promised {
+                    let (mut g, gb) = doc_glm_grad(power, link_of(l), alpha, &x, &y, &coef, b);
+                    g.push(gb);
+                    let ymax = y.iter().cloned().fold(0.0, |a: f64, b: f64| a.max(b.abs()));
+                    let floor = stagnation_floor(&x, true, alpha, 2.0 * (1.0 + ymax) * 20.0, doc_glm_obj(power, link_of(l), alpha, &x, &y, &coef, b));
+                    ctx.require(norm2(&g) <= 1e-6 * 1.0001 + floor, "stationary", &class, || format!("|gradient| = {:e} at coef {:?} intercept {}", norm2(&g), coef, b));
+                }
+                "ok".into()
+            }
+        }
+    });
 }
 
 pub fn run(em: &mut Em, rng: &mut Rng) {
@@ -508,7 +701,10 @@ pub fn run(em: &mut Em, rng: &mut Rng) {
         op_linkf(em, rng);
     }
     for p in [0.0, -1.0, -0.0, 1.0, 1.5, 2.0, 3.0, 0.5, 1e-300, -1e-300, 0.999_999_9, 1.000_000_1] {
-        op_deflink(em, p);
+        op_deflink(em, p, None);
+        for c in 0..3 {
+            op_deflink(em, p, Some(c));
+        }
     }
     for i in 0..40 * f {
         op_f32_scalar(em, rng);
@@ -525,5 +721,18 @@ pub fn run(em: &mut Em, rng: &mut Rng) {
     }
     for _ in 0..24 * f {
         op_budget(em, rng);
+    }
+    for i in 0..60 * f {
+        op_fitm_unscaled(em, rng, i);
+    }
+    mask_ceiling(em);
+    for i in 0..18 * f {
+        op_glm_budget(em, rng, i);
+    }
+    for i in 0..24 * f {
+        op_glm_logit(em, rng, i);
+    }
+    for i in 0..9 * f {
+        op_glm_start(em, rng, i);
     }
 }
